@@ -1,6 +1,6 @@
 //! C16: `from_value::<T>(v)`, `T::deserialize(&v)` and `from_str::<T>(&to_string(&v))` for the universal seed.
 //!
-//! `c16 <cfg> <schema> <value> <F0|F1> <ext> => <owned>|<borrowed>|<text>` with outcomes `OK:<tval>` / `ERR` / `PANIC`.
+//! `c16 <cfg> <schema> <value> <F0|F1> <ext> <hex of to_string(value)> => <owned>|<borrowed>|<text>` with outcomes `OK:<tval>` / `ERR` / `PANIC`.
 //! `F1`: f64 results are comparable (float_roundtrip build, or every number of the value is an integer in
 //! [i64::MIN, u64::MAX] or a short literal: <= 15 significant digits and |decimal exponent| <= 22).
 //! `<ext>` (arbitrary_precision only, else `-`): for every number literal of the value that is not a plain
@@ -108,7 +108,9 @@ fn emit(sink: &mut Sink, s: &Schema, v: &Value, src: &str) {
     let agree = { let fs: Vec<&str> = o.split('|').collect(); fs.iter().all(|x| x.starts_with("OK")) || fs.iter().all(|x| *x == "ERR") };
     let tag = format!("{}:{}:{}{}", src, schema_tag(s), class, if agree { "" } else { ":split" });
     let nontrivial = !is_leaf(s) || matches!(v, Value::Array(_) | Value::Object(_));
-    sink.case("c16", &[&cfg, &se, &ve, flag, &ext], &o, &tag, nontrivial);
+    // the text the third path reads (ryu/itoa output is external to the model: it travels with the case)
+    let text = hexf(serde_json::to_string(v).expect("to_string of a Value").as_bytes());
+    sink.case("c16", &[&cfg, &se, &ve, flag, &ext, &text], &o, &tag, nontrivial);
 }
 
 pub fn replay(sink: &mut Sink, toks: &[&str]) {
